@@ -121,7 +121,7 @@ open MosVerif.Close
 theorem takeWhile_prefix (a rest : List Op) (ha : ∀ op ∈ a, op ≠ .close) :
     (a ++ Op.close :: rest).takeWhile (· != .close) = a := by
   induction a with
-  | nil => simp [List.takeWhile_cons]
+  | nil => simp
   | cons x a ih =>
     have hx : (x != Op.close) = true := by simpa using ha x (by simp)
     simp only [List.cons_append, List.takeWhile_cons, hx, if_true]
